@@ -561,7 +561,7 @@ func checkC12(c *Ctx) {
 				r.Unk("C12.6", "processBdReq: loop over "+which, iff.Pos(), fnName(f), "could not locate the loop header of the weighted choice")
 				continue
 			}
-			back, _ := reach(f, matched.Instrs[0], func(in ssa.Instruction) bool { return in.Block() == header }, nil, nil)
+			back, _ := reachAt(f, matched, func(in ssa.Instruction) bool { return in.Block() == header }, nil, nil)
 			if matched == header {
 				back = true
 			}
@@ -622,7 +622,7 @@ func checkC12(c *Ctx) {
 			exclBlock := containsIf.Block().Succs[slot]
 			hit := false
 			for _, ov := range overrides {
-				if ok, _ := reach(f, exclBlock.Instrs[0], isInstr(ov), nil, nil); ok {
+				if ok, _ := reachAt(f, exclBlock, isInstr(ov), nil, nil); ok {
 					hit = true
 				}
 			}
